@@ -102,6 +102,16 @@ func c17Units(tier string) []Unit {
 			Alphabet: as.ops(), Depth: depth, Budget: explore.Budget{Provides: 3, Decorates: 1, Invokes: 2, Rejected: 1}, Allowed: onceEach,
 			Monitors: []explore.Monitor{dryMonitor},
 		}})
+		// constructors whose result is itself interface-typed, provided under
+		// one or two interfaces (its own type first or second; as a nested named field)
+		if !def || !quick(tier) {
+			asi := alpha{scopes: []int{0, 1}, ctors: []*uFunc{kIboth, kIboth2, kIasI, tIownN}, export: !quick(tier), invokes: []*uFunc{qI, qII, qIn, qBoth, qAll}}
+			units = append(units, Unit{Sc: &Scenario{
+				Name: fmt.Sprintf("dry/as-on-interface-results/defer=%v", def), Cfg: h.Config{Dry: true, Defer: def}, Prefix: prefixChild,
+				Alphabet: asi.ops(), Depth: 4, Budget: explore.Budget{Provides: 2, Invokes: 2, Rejected: 1}, Allowed: onceEach,
+				Monitors: []explore.Monitor{dryMonitor},
+			}})
+		}
 	}
 	return units
 }
